@@ -1357,6 +1357,13 @@ class XMLSchemaBase(XsdValidator, ElementPathMixin[Union[SchemaType, XsdElement]
                             else:
                                 identities[identity] = identity.get_counter(ancestors[k])
 
+                            if isinstance(identity, XsdKeyref) and \
+                                    identity.refer not in identities and \
+                                    isinstance(identity.refer, XsdIdentity):
+                                refer = identity.refer
+                                identities[refer] = refer.get_counter(ancestors[k])
+                                identities[refer].enabled = False
+
                     prev_ancestors = ancestors[:]
 
             xsd_element = schema.get_element(elem.tag, schema_path, namespaces)
